@@ -106,3 +106,16 @@ func SolveHyps(hyps []*smt.Term, want *smt.Term) (*smt.Term, bool, bool) {
 	}
 	return nil, false, false
 }
+
+// Feasible decides whether the conjunction of hyps is satisfiable.
+func Feasible(hyps []*smt.Term) (bool, bool) {
+	q := &smt.Query{Name: "feasible", Hyps: hyps}
+	r := smt.Solve(q, 10)
+	switch r.Status {
+	case "unsat":
+		return false, true
+	case "sat":
+		return true, true
+	}
+	return false, false
+}
